@@ -49,10 +49,10 @@ def register(reg, repo):
         """I-Fut: an uncomputed future has no error and has not been announced."""
         f = q("f!inv")
         g = z3.And(heap.sel("$alloc", f), eng.isinstance_f(f, [eng.ct.cls("FutureBase")]))
-        return [z3.ForAll([f], z3.Implies(z3.And(g, heap.sel("_value", f) == NONE_MARK),
+        return [smt.forall([f], z3.Implies(z3.And(g, heap.sel("_value", f) == NONE_MARK),
                                           z3.And(heap.sel("_error", f) == NONE, heap.sel("$n_notified", f) == 0)),
                           patterns=[heap.sel("_value", f)]),
-                z3.ForAll([f], z3.Implies(g, heap.sel("$n_notified", f) >= 0),
+                smt.forall([f], z3.Implies(g, heap.sel("$n_notified", f) >= 0),
                           patterns=[heap.sel("$n_notified", f)])]
     reg.inv_hooks.append(inv_future)
 
@@ -63,7 +63,7 @@ def register(reg, repo):
         b = heap.sel("batch", x)
         items = heap.sel("items", b)
         idx = smt.int_of(heap.sel("index", x))
-        return [z3.ForAll([x], z3.Implies(z3.And(g, b != NONE, heap.sel("_value", x) == NONE_MARK),
+        return [smt.forall([x], z3.Implies(z3.And(g, b != NONE, heap.sel("_value", x) == NONE_MARK),
                                           z3.And(0 <= idx, idx < heap.sel("$llen", items),
                                                  z3.Select(heap.sel("$litem", items), idx) == x)),
                           patterns=[heap.sel("_value", x), heap.sel("batch", x)])]
@@ -80,14 +80,14 @@ def register(reg, repo):
         inr = z3.And(0 <= j, j < heap.sel("$llen", items))
         b2 = q("b2!inv")
         g2 = z3.And(heap.sel("$alloc", b2), eng.isinstance_f(b2, [eng.ct.cls("BatchBase")]))
-        return [z3.ForAll([b, j], z3.Implies(z3.And(g, inr),
+        return [smt.forall([b, j], z3.Implies(z3.And(g, inr),
                                              z3.And(heap.sel("$alloc", it), eng.isinstance_f(it, [eng.ct.cls("BatchItemBase")]),
                                                     heap.sel("batch", it) == b)),
                           patterns=[z3.Select(heap.sel("$litem", heap.sel("items", b)), j)]),
-                z3.ForAll([b, j], z3.Implies(z3.And(g, inr, heap.sel("$n_notified", b) >= 1),
+                smt.forall([b, j], z3.Implies(z3.And(g, inr, heap.sel("$n_notified", b) >= 1),
                                              heap.sel("_value", it) != NONE_MARK),
                           patterns=[z3.Select(heap.sel("$litem", heap.sel("items", b)), j)]),
-                z3.ForAll([b, b2], z3.Implies(z3.And(g, g2, b != b2), heap.sel("items", b) != heap.sel("items", b2)),
+                smt.forall([b, b2], z3.Implies(z3.And(g, g2, b != b2), heap.sel("items", b) != heap.sel("items", b2)),
                           patterns=[z3.MultiPattern(heap.sel("items", b), heap.sel("items", b2))])]
     reg.inv_hooks.append(inv_batch)
 
@@ -104,7 +104,7 @@ def register(reg, repo):
     # ---- two-state invariants (E2) -------------------------------------------
     def ts_alloc(eng, old, new, skip=()):
         x = q("x!ts")
-        return [z3.ForAll([x], z3.Implies(old.sel("$alloc", x), new.sel("$alloc", x)),
+        return [smt.forall([x], z3.Implies(old.sel("$alloc", x), new.sel("$alloc", x)),
                           patterns=[new.sel("$alloc", x)])]
 
     def ts_future(eng, old, new, skip=()):
@@ -116,7 +116,7 @@ def register(reg, repo):
                 new.sel("$n_flush_body", f) == old.sel("$n_flush_body", f)]
         if "notif" not in skip:
             body.append(new.sel("$n_notified", f) == old.sel("$n_notified", f))
-        return [z3.ForAll([f], z3.Implies(
+        return [smt.forall([f], z3.Implies(
             z3.And(old.sel("$alloc", f), eng.isinstance_f(f, [eng.ct.cls("FutureBase")]),
                    old.sel("_value", f) != NONE_MARK),
             z3.And(*body)),
@@ -125,7 +125,7 @@ def register(reg, repo):
     def ts_announced(eng, old, new, skip=()):
         """T4: a future completed by a public operation has been announced by the time that operation returns."""
         f = q("f!t4")
-        return [z3.ForAll([f], z3.Implies(
+        return [smt.forall([f], z3.Implies(
             z3.And(old.sel("$alloc", f), eng.isinstance_f(f, [eng.ct.cls("FutureBase")]),
                    old.sel("_value", f) == NONE_MARK, new.sel("_value", f) != NONE_MARK),
             new.sel("$n_notified", f) >= 1),
@@ -136,7 +136,7 @@ def register(reg, repo):
         if "flushbody" in skip:
             return []
         f = q("f!t5")
-        return [z3.ForAll([f], z3.Implies(
+        return [smt.forall([f], z3.Implies(
             z3.And(old.sel("$alloc", f), eng.isinstance_f(f, [eng.ct.cls("BatchBase")]),
                    new.sel("_value", f) == NONE_MARK),
             new.sel("$n_flush_body", f) == old.sel("$n_flush_body", f)),
@@ -150,12 +150,12 @@ def register(reg, repo):
         items = old.sel("items", b)
         it = q("it!t6")
         gi = z3.And(old.sel("$alloc", it), eng.isinstance_f(it, [eng.ct.cls("BatchItemBase")]))
-        return [z3.ForAll([it], z3.Implies(gi, new.sel("batch", it) == old.sel("batch", it)),
+        return [smt.forall([it], z3.Implies(gi, new.sel("batch", it) == old.sel("batch", it)),
                           patterns=[new.sel("batch", it)]),
-                z3.ForAll([b], z3.Implies(g, z3.And(new.sel("items", b) == items,
+                smt.forall([b], z3.Implies(g, z3.And(new.sel("items", b) == items,
                                                     z3.Implies(old.sel("$b_switched", b), new.sel("$b_switched", b)))),
                           patterns=[new.sel("items", b), old.sel("items", b)]),
-                z3.ForAll([b], z3.Implies(z3.And(g, old.sel("_value", b) != NONE_MARK, old.sel("$n_notified", b) == 0),
+                smt.forall([b], z3.Implies(z3.And(g, old.sel("_value", b) != NONE_MARK, old.sel("$n_notified", b) == 0),
                                           z3.And(new.sel("$llen", items) == old.sel("$llen", items),
                                                  new.sel("$litem", items) == old.sel("$litem", items))),
                           patterns=[new.sel("$llen", old.sel("items", b)), old.sel("$llen", old.sel("items", b)),
@@ -185,10 +185,10 @@ def register(reg, repo):
             guard = eng.isinstance_f(x, [eng.ct.cls(cls)])
             v = z3.Select(a, x)
             body = V.is_bval(v) if t == "bint" else smt.typeof(v) == eng.ct.cls(t)
-            out.append(z3.ForAll([x], z3.Implies(guard, body), patterns=[z3.Select(a, x)]))
+            out.append(smt.forall([x], z3.Implies(guard, body), patterns=[z3.Select(a, x)]))
         if field == "batch":
             v = z3.Select(a, x)
-            out.append(z3.ForAll([x], z3.Implies(eng.isinstance_f(x, [eng.ct.cls("BatchItemBase")]),
+            out.append(smt.forall([x], z3.Implies(eng.isinstance_f(x, [eng.ct.cls("BatchItemBase")]),
                                                  z3.Or(v == NONE, eng.isinstance_f(v, [eng.ct.cls("BatchBase")]))),
                                  patterns=[z3.Select(a, x)]))
         import re as _re
@@ -197,13 +197,13 @@ def register(reg, repo):
             # reachable values exist: alloc at the same epoch (entry / whole-heap havoc arrays only)
             from pyvc.state import AVB
             al = z3.Const("$alloc@%s" % m.group(2), AVB)
-            out.append(z3.ForAll([x], z3.Implies(z3.Select(al, x), z3.Select(al, z3.Select(a, x))),
+            out.append(smt.forall([x], z3.Implies(z3.Select(al, x), z3.Select(al, z3.Select(a, x))),
                                  patterns=[z3.Select(a, x)]))
         if field in ("$llen", "$olen"):
-            out.append(z3.ForAll([x], z3.Select(a, x) >= 0, patterns=[z3.Select(a, x)]))
+            out.append(smt.forall([x], z3.Select(a, x) >= 0, patterns=[z3.Select(a, x)]))
         if field == "$alloc":
             # ints, bools, None and the named constants (classes, markers, globals) always exist
-            out.append(z3.ForAll([x], z3.Implies(z3.Or(z3.Not(V.is_obj(x)), V.oid(x) < 0), z3.Select(a, x)),
+            out.append(smt.forall([x], z3.Implies(z3.Or(z3.Not(V.is_obj(x)), V.oid(x) < 0), z3.Select(a, x)),
                                  patterns=[z3.Select(a, x)]))
         return out
     reg.array_hooks.append(array_facts)
